@@ -363,7 +363,49 @@ def formulas(src):
                    "\n  ".join(lets), t.env["dra_dx"], t.env["dra_dy"], t.env["ddec_dx"], t.env["ddec_dy"]))
     out.append(flow_image2sky(tree))
     out.append(flow_sky2image(tree))
+    out.append(fit_ranges(tree))
     return "\n\n".join(out) + "\n"
+
+
+# ---- the rectangle on which the inverse polynomial is fitted (which naxis / crpix index feeds which axis) ----
+
+def _range_pair(t, node, what):
+    """np.array([a, b][, dtype=...]) [- c]  ->  coq pair"""
+    sub = None
+    if isinstance(node, ast.BinOp) and isinstance(node.op, ast.Sub):
+        node, sub = node.left, node.right
+    if not (isinstance(node, ast.Call) and ast.unparse(node.func) == "np.array" and len(node.args) == 1
+            and isinstance(node.args[0], ast.List) and len(node.args[0].elts) == 2
+            and all(k.arg == "dtype" for k in node.keywords)):
+        raise TranslateError("%s is not np.array([lo, hi]) [- offset]: %s" % (what, ast.unparse(node)))
+    lo, hi = [t.e(x) for x in node.args[0].elts]
+    if sub is not None:
+        o = t.e(sub)
+        return "((%s - %s), (%s - %s))" % (lo, o, hi, o)
+    return "(%s, %s)" % (lo, hi)
+
+
+def fit_ranges(tree):
+    out = []
+    env = {"self.naxis[0]": "naxis0", "self.naxis[1]": "naxis1", "self.crpix[0]": "crpix0", "self.crpix[1]": "crpix1"}
+    for meth, nm, targets in (("InvertPVDistortion", "src_pv_fit_ranges", "xdiff, ydiff"),
+                              ("InvertSipDistortion", "src_sip_fit_ranges", "x, y")):
+        fn = _method(tree, meth)
+        sts = {}
+        grid = []
+        for n in ast.walk(fn):
+            if isinstance(n, ast.Assign) and len(n.targets) == 1:
+                sts.setdefault(ast.unparse(n.targets[0]), []).append(n.value)
+                if isinstance(n.value, ast.Call) and ast.unparse(n.value.func) == "make_xy_grid":
+                    grid.append(ast.unparse(n))
+        if len(sts.get("xrang", [])) != 1 or len(sts.get("yrang", [])) != 1:
+            raise TranslateError("%s: xrang / yrang are not assigned exactly once" % meth)
+        if grid != ["%s = make_xy_grid(ng, xrang, yrang)" % targets]:
+            raise TranslateError("%s: unexpected grid construction %s" % (meth, grid))
+        t = Tr(env)
+        out.append("Definition %s (naxis0 naxis1 crpix0 crpix1 : R) : (R * R) * (R * R) :=\n  (%s, %s)." % (
+            nm, _range_pair(t, sts["xrang"][0], meth + ".xrang"), _range_pair(t, sts["yrang"][0], meth + ".yrang")))
+    return "\n\n".join(out)
 
 
 # ---- control flow of image2sky / sky2image(find=False): which of CD matrix and distortion comes first ----
